@@ -98,7 +98,7 @@ func plainECDH(x *mon.Ctx) {
 	}
 	sub := len(st)
 	if !x.Thorough() {
-		sub = 10
+		sub = 8
 	}
 	k := 0
 	for i, a := range st {
@@ -114,7 +114,7 @@ func plainECDH(x *mon.Ctx) {
 			c.End()
 		}
 	}
-	for i := 0; i < x.Scale(600, 8000); i++ {
+	for i := 0; i < x.Scale(300, 8000); i++ {
 		c := x.Begin("ecdh random #%d", i)
 		if c == nil {
 			continue
